@@ -228,7 +228,7 @@ class Run:
 
     # ---- sizes
     def n(self, quick: int, thorough: int) -> int:
-        scale = float(os.environ.get("VERIF_SCALE", "1"))
+        scale = float(os.environ.get("VERIF_SCALE", "1")) * getattr(self, "boost", 1)
         return max(1, int((quick if self.tier == "quick" else thorough) * scale))
 
     @property
@@ -438,6 +438,62 @@ class Run:
             target = REPLAYS / "scratch-evidence"
             target.mkdir(parents=True, exist_ok=True)
         (target / f"{self.prop}.json").write_text(json.dumps(ev, indent=1, default=str) + "\n")
+
+
+ANCHOR_HASHES = VERIF / "harness" / "anchor_hashes.json"
+
+
+def anchor_files(prop: str) -> list[str]:
+    for ln in (VERIF / "properties.jsonl").read_text().splitlines():
+        if ln.strip():
+            d = json.loads(ln)
+            if d["id"] == prop:
+                return d["anchors"]["files"]
+    return []
+
+
+def source_fingerprints(prop: str) -> dict:
+    """hash of the AST (comments/formatting ignored) of each anchor file of the property in the tree under test"""
+    import ast
+    out = {}
+    for rel in anchor_files(prop):
+        try:
+            out[rel] = hashlib.sha1(ast.dump(ast.parse((REPO / rel).read_text())).encode()).hexdigest()[:16]
+        except Exception as e:  # noqa
+            out[rel] = "unreadable:" + type(e).__name__
+    return out
+
+
+def note_source_changes(R) -> None:
+    """If a modelled source file differs from the version the models were last validated against, explore deeper
+    (3x the cases).  Never an alarm by itself: the correspondence decides."""
+    known = json.loads(ANCHOR_HASHES.read_text()).get(R.prop, {}) if ANCHOR_HASHES.exists() else {}
+    now = source_fingerprints(R.prop)
+    changed = sorted(f for f, h in now.items() if known.get(f) != h)
+    R.extra["anchor_sources"] = {"changed_since_last_validation": changed, "files": len(now)}
+    if changed and known:
+        R.boost = 3
+        R.notes.append("modelled source changed since the models were last validated: " + ", ".join(changed) + " -> 3x cases")
+
+
+def coverage_report(cov, prop: str) -> dict:
+    """statements of the property's anchor files (properties.jsonl) executed by this run"""
+    anchors = []
+    for ln in (VERIF / "properties.jsonl").read_text().splitlines():
+        if ln.strip():
+            d = json.loads(ln)
+            if d["id"] == prop:
+                anchors = d["anchors"]["files"]
+    out = {}
+    for rel in anchors:
+        f = REPO / rel
+        try:
+            _, stmts, _, missing, fmt = cov.analysis2(str(f))
+        except Exception as e:  # noqa
+            out[rel] = {"error": repr(e)[:80]}
+            continue
+        out[rel] = {"statements": len(stmts), "executed": len(stmts) - len(missing), "missing_lines": fmt}
+    return out
 
 
 def shrink_list(items: list, still_bad, max_rounds: int = 200) -> list:
